@@ -260,6 +260,10 @@ class LinAnalysis:
                 vc = self.cls(val, rep=False)
                 for t in tgts:
                     elts = [t] if not isinstance(t, (ast.Tuple, ast.List)) else list(t.elts)
+                    # a, b = E1, E2 binds element-wise
+                    if isinstance(t, (ast.Tuple, ast.List)) and isinstance(val, (ast.Tuple, ast.List)) and len(val.elts) == len(t.elts) and \
+                            not any(isinstance(x, ast.Starred) for x in list(val.elts) + list(t.elts)):
+                        vc = tuple(self.c1(x, rep=False) for x in val.elts)
                     if isinstance(vc, tuple) and len(vc) == len(elts):
                         pairs = zip(elts, vc)
                     else:
